@@ -228,7 +228,13 @@ def run(tape: Tape) -> Outcome:
             def fn():
                 for i, op in enumerate(ops):
                     if owner[i] == tid:
-                        do(i, op)
+                        try:
+                            do(i, op)
+                        except T.SimAbort:
+                            raise
+                        except Exception as e:  # environment creation / overlay / clear_caches raised
+                            e.__traceback__ = None
+                            results[i] = ("op-raised", exc_key(e))
             return fn
 
         for tid in range(nt):
@@ -283,6 +289,9 @@ def run(tape: Tape) -> Outcome:
         used = []
         reuse = False
         for i, op in enumerate(ops):
+            if results[i] is not None and results[i][0] == "op-raised":
+                out.violate(("operation-raised", op[0], results[i][1][0], "threads%d" % nt), op=i, got=results[i])
+                return out
             if expect[i] is None:
                 continue
             cfg, src, di, *nm = expect[i]
